@@ -224,7 +224,7 @@ def r_transform_path(ck: Checker, f: Func, visit_name: str = "visit", rule: str 
     if not (isinstance(lp.target, ast.Tuple) and len(lp.target.elts) == 3):
         raise Unsupported("loop target", lp)
     child, fld, index = (norm(x) for x in lp.target.elts)
-    leaves = decision_tree(lp.body, max_atoms=8)
+    leaves = decision_tree(lp.body, max_atoms=8, resolve=True)
     changes = marked = None
     bad = []
     k_idx = k_none(index)
@@ -260,6 +260,8 @@ def r_transform_path(ck: Checker, f: Func, visit_name: str = "visit", rule: str 
         in_seq = not a[k_idx]
         removed = a.get(k_gone)
         same = a.get(k_same)
+        if removed is True and same is True:
+            continue  # infeasible: the enumerated child is never None (R-PRESENCE), so a None result is not the same object
         if in_seq:
             if removed is None:
                 bad.append(f"{a}: a removed sequence element is not distinguished")
@@ -314,6 +316,13 @@ def r_transform_path(ck: Checker, f: Func, visit_name: str = "visit", rule: str 
                 ok_filter = True
         if isinstance(st, ast.For) and marked and any(isinstance(c, ast.Call) and isinstance(c.func, ast.Attribute) and c.func.attr == "pop" for c in walk_body(st.body)):
             if f"- {marked}" in norm(_resolve(fn, st.iter)) or f"not in {marked}" in norm(st):
+                ok_filter = True
+    if not ok_filter and marked:
+        # the result is a comprehension over the marked names
+        for r in [x for x in walk_body(tail) if isinstance(x, ast.Return) and isinstance(x.value, ast.DictComp)]:
+            dc = r.value
+            g0 = dc.generators[0]
+            if norm(g0.iter) in (marked, f"sorted({marked})") and norm(dc.key) == norm(g0.target) and not g0.ifs:
                 ok_filter = True
     if not ok_filter and marked:
         # the result is a new mapping filled by a loop over the marked names
